@@ -91,6 +91,7 @@ class udp(packet_base):
 
         if self.len < udp.MIN_LEN:
             self.msg('(udp parse) warning invalid UDP len %u' % self.len)
+            self.next = raw[udp.MIN_LEN:]
             return
 
         #TODO: DHCPv6, etc.
@@ -112,10 +113,9 @@ class udp(packet_base):
         elif (self.dstport == vxlan.VXLAN_PORT
                     or self.srcport == vxlan.VXLAN_PORT):
             self.next = vxlan(raw=raw[udp.MIN_LEN:],prev=self)
-        elif dlen < self.len:
-            self.msg('(udp parse) warning UDP packet data shorter than UDP len: %u < %u' % (dlen, self.len))
-            return
         else:
+            if dlen < self.len:
+                self.msg('(udp parse) warning UDP packet data shorter than UDP len: %u < %u' % (dlen, self.len))
             self.payload = raw[udp.MIN_LEN:]
 
 
